@@ -878,7 +878,14 @@ pub fn run_scenario(spec: &Value) -> Vec<Value> {
                     // for on that stream, nothing else, and call again.
                     let moved = ev["consumed"].as_array().unwrap().iter().any(|c| c.as_i64().unwrap() != 0)
                         || ev["produced"].as_array().unwrap().iter().any(|c| c.as_i64().unwrap() != 0);
-                    let which = rng.below(3);
+                    let mut which = rng.below(3);
+                    // Under the back-pressure styles a counter-probe (which empties every output
+                    // while the block waits for input) would undo the back-pressure each time
+                    // the input runs dry: keep only one in eight of them there, so that outputs
+                    // really stay full while plenty of input is waiting.
+                    if which == 2 && (style == 3 || style == 4) && !rng.chance(1, 8) {
+                        which = 0;
+                    }
                     if ev["verdict"]["kind"] == "wait" && !moved && which == 2 {
                         // Counter-probe: provide everything EXCEPT on the stream
                         // the block says it waits for. If it then moves data the
